@@ -176,6 +176,15 @@ def compare(b, s, names, fns, extra_env=None, vals=VALS, what="parse"):
         if not refused:
             b.fail(Failure(b.name, f"what=importer-raised string={s!r}", dict(kind="import", string=s), expected="a tree or NotImplementedError", actual=outcome.describe(imp)[:200],
                            functions=["ASTToPymbolic"]))
+        elif issubclass(imp[1], NotImplementedError):
+            # the statement promises an equivalent tree for the whole shared syntax: a refusal is reported, tagged with the Python AST
+            # node type the importer has no handler for (each listed gap is a known finding; any other refusal is a new violation)
+            import re as _re
+            mm = _re.search(r"'(\w+)'", " ".join(str(a) for a in imp[2]))
+            if mm and mm.group(1) in ("List", "Set", "Dict", "Slice"):
+                return      # list / set / dict displays and slices are not in the statement's list of shared syntax: refusing them is fine
+            b.fail(Failure(b.name, f"what=importer-refused cause=importer-no-handler-{mm.group(1) if mm else 'unknown'} string={s!r}", dict(kind="import", string=s),
+                           expected="an equivalent tree", actual=outcome.describe(imp)[:200], functions=["ASTToPymbolic"]))
     elif bad_imp:
         env, want, got = bad_imp
         show = {k: v for k, v in env.items() if k in names}
@@ -192,7 +201,7 @@ def b_skeletons(tier, seed):
     b = BoundedRun("operator-skeletons", rule="for every string 'a op1 b op2 c' (all 400 ordered pairs of the 20 binary operators), every 'a op1 b op2 c op3 d' (all 8000 triples "
                    "in the thorough tier; the 1000 triples over 10 representative operators in the quick tier), every unary operator in every operand position of every pair "
                    "skeleton over a reduced operator set and doubled unary operators: parse(s) evaluated over the exhaustive box {-2,0,1,2}^n equals Python's eval(s) outcome "
-                   "for outcome (value and type or error class; evaluations that run > 2 s skipped); likewise for the AST importer (NotImplementedError is a refusal)",
+                   "for outcome (value and type or error class; evaluations that run > 2 s skipped); likewise for the AST importer (a NotImplementedError refusal is reported with the missing handler as its cause)",
                    bound="<= 3 binary operators, values in {-2,0,1,2}", functions=["Parser.parse_expression", "Parser.parse_postfix", "Parser.parse_prefix", "ASTToPymbolic"])
     fns = ["Parser.parse_postfix", "Parser.parse_prefix"]
     for o1, o2 in itertools.product(BINOPS, repeat=2):
